@@ -9,6 +9,7 @@ package main
 import (
 	"fmt"
 	"go/constant"
+	"regexp"
 	"strings"
 
 	"golang.org/x/tools/go/ssa"
@@ -19,14 +20,55 @@ func init() {
 	register("NAMEDEGREE", "letter distance: ring C D E F G A B, the second search continues from the first, result = index(y) - index(x) + 1", 2, ruleNameDegree)
 }
 
-// facts renders the calls, stores, map updates and returns of fn and its closures.
+var wireVocab map[string]bool
+
+// wireVocabulary: the function names the WIRE facts are written in (the functions with a spec of their own and every
+// repo function mentioned in a required fact). They stay opaque in descriptions; any other unexported same-package
+// helper is looked through, so extracting code into a new helper does not change the facts.
+func wireVocabulary() map[string]bool {
+	if wireVocab != nil {
+		return wireVocab
+	}
+	wireVocab = map[string]bool{}
+	nameRe := regexp.MustCompile(`[A-Za-z0-9_/.]+\.[A-Za-z0-9_]+\(`)
+	for _, sp := range wireSpecs {
+		wireVocab[sp.pkg+"."+sp.fn] = true
+		for _, f := range sp.need {
+			for _, h := range f.has {
+				for _, m := range nameRe.FindAllString(h, -1) {
+					wireVocab[strings.TrimSuffix(m, "(")] = true
+				}
+			}
+		}
+	}
+	for _, n := range []string{"cmd.getRootNote", "cmd.getScale", "cmd.newChordMap", "cmd.parseTextOneChordSymbol", "cmd.writeYamlOutput"} {
+		wireVocab[n] = true
+	}
+	return wireVocab
+}
+
+// facts renders the calls, stores, map updates and returns of fn, its closures and the helpers it looks through.
 func (c *Ctx) facts(fn *ssa.Function) []string {
 	var out []string
 	for _, f := range withClosures(fn) {
 		ac := &affCtx{c: c, fn: f, alias: map[ssa.Value]string{}}
+		out = append(out, c.factsIn(ac, f)...)
+	}
+	return out
+}
+
+func (c *Ctx) factsIn(ac *affCtx, f *ssa.Function) []string {
+	var out []string
+	{
 		allInstrs(f, func(in ssa.Instruction) {
 			switch x := in.(type) {
 			case ssa.CallInstruction:
+				// a helper that is looked through contributes its own facts, rendered in terms of this function
+				if call, ok := x.(*ssa.Call); ok {
+					if callee, ok := ac.transparent(call); ok {
+						out = append(out, c.factsIn(ac.child(callee, call), callee)...)
+					}
+				}
 				var as []string
 				if x.Common().IsInvoke() {
 					as = append(as, ac.describe(x.Common().Value))
@@ -44,7 +86,7 @@ func (c *Ctx) facts(fn *ssa.Function) []string {
 			case *ssa.MapUpdate:
 				out = append(out, "mapupdate ["+ac.describe(x.Key)+"] <- "+ac.describe(x.Value))
 			case *ssa.Return:
-				if isRecoverBlock(x.Block()) {
+				if isRecoverBlock(x.Block()) || ac.inlining > 0 {
 					return
 				}
 				var rs []string
